@@ -7,7 +7,8 @@ from props import PROPS
 from manifest_text import TEXT, NOT_YET, HOOK_COMMITS, NOTES
 
 checks = []
-for pid in sorted(PROPS):
+CLAIMED = sorted(p for p in PROPS if PROPS[p]['theorems'])
+for pid in CLAIMED:
     t = TEXT[pid]
     checks.append({
         "property_id": pid,
@@ -21,7 +22,7 @@ for pid in sorted(PROPS):
         "technique": t["technique"],
     })
 na = [{"property_id": "C%02d" % i, "reason": NOT_YET.get("C%02d" % i, "not yet built (framework under construction; planned, see DESIGN.md section 6)")}
-      for i in range(1, 21) if "C%02d" % i not in PROPS]
+      for i in range(1, 21) if "C%02d" % i not in CLAIMED]
 m = {
     "version": 1,
     "setup_cmd": "python3 check.py --setup",
@@ -34,7 +35,7 @@ m = {
     },
     "engines": [{
         "name": "lean-proof+correspondence", "path": "/verif/check.py",
-        "serves_properties": sorted(PROPS),
+        "serves_properties": CLAIMED,
         "kind_free_text": "Lean 4 theorems about a hand-written executable model (lean/Dbg), re-checked on every run against constants "
                           "regenerated from /repo/src (tools/extract_consts.py); the model is tied to the code by a differential "
                           "correspondence check (Rust harness calling the crate in-process vs the compiled Lean driver) and the "
@@ -45,4 +46,4 @@ m = {
     "not_applicable": na,
 }
 json.dump(m, open(os.path.join(V, "MANIFEST.json"), "w"), indent=1)
-print("claimed:", sorted(PROPS))
+print("claimed:", CLAIMED)
